@@ -14,11 +14,11 @@ TRUST = "Trusts lib/zckref.py (written from zchunk_format.txt), Python hashlib, 
 
 CHECKS = {
     "C01": dict(level="exploration",
-                technique="runtime differential monitoring: write with real library under ASan/UBSan, read back through library (generated buffer-size sequences) and an independent reference decoder; CPU-time bound on the write path; zck/unzck end to end",
+                technique="runtime differential monitoring: write with real library under ASan/UBSan, read back through library (generated buffer-size sequences) and an independent reference decoder; CPU-time bound on the write path; zck/unzck end to end; output behind a preamble / O_APPEND; CPU-bound overruns confirmed on the uninstrumented build",
                 text="Held on every generated (content, configuration, segmentation, read sequence) case executed; sampled, not exhaustive. Right level because the property quantifies over unbounded inputs/configurations and the oracle (byte equality with the written content, plus an independent decoder) is exact for each execution.",
                 note=TRUST + " Inputs <= 2 MiB."),
     "C02": dict(level="exploration",
-                technique="runtime monitoring of the real reader (library + unzck, ASan/UBSan) on mutated and re-sealed files; offline oracle over the read event log: success implies equality with an independent reference decoder",
+                technique="runtime monitoring of the real reader (library + unzck, ASan/UBSan) on mutated and re-sealed files; offline oracle over the read event log: success implies equality with an independent reference decoder; reads issued after validation calls as well",
                 text=EXPL + " One-directional oracle (success => equals reference content).",
                 note=TRUST + " Corruption patterns limited to the mutation grammar; hash collisions out of scope."),
     "C03": dict(level="exploration",
@@ -38,39 +38,39 @@ CHECKS = {
                 text="Every single-byte substitution of every header byte of each sample file is executed (exhaustive over that finite space); insertions/deletions and digest transplants sampled. Right level: the property is a statement about each header byte.",
                 note="Independent checksum from Python hashlib; sample files cover the 4 lead checksum types, flags, dict/no dict, detached headers."),
     "C07": dict(level="exploration",
-                technique="runtime enumeration of pinned-digest strings (every position x all 256 byte values), lengths, type/length pins and pin-vs-actual grids through the real option setters and lead readers; oracle = Python int(x,16) / byte equality",
+                technique="runtime enumeration of pinned-digest strings (every position x all 256 byte values), lengths, type/length pins and pin-vs-actual grids through the real option setters and lead readers; oracle = Python int(x,16) / byte equality; pins whose differences cancel under folding, refused re-pins, images through pipe / FIFO / socket / behind another image",
                 text=EXPL + " The per-position byte enumeration of the digest string is exhaustive.",
                 note="Oracle: Python string/hex semantics; reference parse of the file's lead."),
     "C08": dict(level="exploration",
-                technique="offline checker over zck_copy_chunks / zck_find_matching_chunks runs: valid flags vs hashlib recomputation over the target's bytes, write(2) interposer log + image diff for confinement, source hash before/after",
+                technique="offline checker over zck_copy_chunks / zck_find_matching_chunks runs: valid flags vs hashlib recomputation over the target's bytes, write(2) interposer log + image diff for confinement, source hash before/after; descriptor re-opened between copies (zck_set_fd), target on descriptor 2, crafted index pairs",
                 text=EXPL,
                 note=TRUST),
     "C09": dict(level="exploration",
-                technique="runtime monitoring of zck_find_valid_chunks / zck_validate_checksums / zck_validate_data_checksum on generated on-disk states: flags and verdicts vs hashlib recomputation, interposer log proves no write, read-after-validation equals read-without",
+                technique="runtime monitoring of zck_find_valid_chunks / zck_validate_checksums / zck_validate_data_checksum on generated on-disk states: flags and verdicts vs hashlib recomputation, interposer log proves no write, read-after-validation equals read-without; sparse files, empty chunks, validation through a pipe; tool verdicts (zck_read_header -f with and without -c, unzck -c)",
                 text=EXPL + " All 4^n chunk-state combinations are enumerated for the smallest files.",
                 note=TRUST),
     "C10": dict(level="exploration",
-                technique="runtime monitoring of zck_get_missing_range / zck_get_range_char / range index on validity vectors established through the public API (all 2^n vectors for small n, exhaustive) against a Python set computation over the chunk table; ASan on the string builder",
+                technique="runtime monitoring of zck_get_missing_range / zck_get_range_char / range index on validity vectors established through the public API (all 2^n vectors for small n, exhaustive) against a Python set computation over the chunk table; ASan on the string builder; multi-step sequences on one context (late hints, copies with damaged sources), empty chunks, 10-digit offsets with > 32 KB of request text",
                 text=EXPL + " All validity vectors of the small indexes x all limits are enumerated completely.",
                 note=TRUST),
     "C11": dict(level="fault_enumeration",
-                technique="kill-point enumeration: the update procedure is killed at every write(2) to the target (several byte offsets inside each write) via a link-time interposer, then resumed in a fresh process; offline checker over the resume's request log and the snapshot taken at the kill",
+                technique="kill-point enumeration: the update procedure is killed at every write(2) to the target (several byte offsets inside each write) via a link-time interposer, then resumed in a fresh process; offline checker over the resume's request log and the snapshot taken at the kill; restarts with a different local source; the real zckdl killed and resumed; a failing uninterrupted update from a partial target is a violation",
                 text="Every target write of each scenario is a kill point and each is executed with several partial-transfer sizes (exhaustive per scenario); scenarios sampled. Right level: the property quantifies over interruption points of a finite execution.",
                 note=TRUST + " Interruption modelled at write(2) granularity; no power-loss reordering."),
     "C12": dict(level="fault_enumeration",
-                technique="fault enumeration: every read/write/lseek on every descriptor class in each scenario is failed (EIO/ENOSPC/EINTR), shortened or zeroed via link-time and LD_PRELOAD interposers; oracle: success reported => the bytes that reached the descriptor are complete and correct",
+                technique="fault enumeration: every read/write/lseek on every descriptor class in each scenario is failed (EIO/ENOSPC/EINTR), shortened or zeroed via link-time and LD_PRELOAD interposers; oracle: success reported => the bytes that reached the descriptor are complete and correct; kernel-side copy calls (sendfile family) counted and faulted as writes; callers that clear the error and retry; double faults",
                 text="For each scenario a fault-free run counts the calls per (syscall, descriptor class); every k-th call is then re-run under each fault kind (exhaustive per scenario). Right level: the property quantifies over failure points of a finite execution.",
                 note=TRUST + " (INJECTED) markers in the log prove each fault fired."),
     "C13": dict(level="exploration",
-                technique="runtime differential monitoring: dump of every public getter + chunk iteration and zck_read_header output vs independent reference parse of reference-writer headers (boundary grid, re-sealed)",
+                technique="runtime differential monitoring: dump of every public getter + chunk iteration and zck_read_header output vs independent reference parse of reference-writer headers (boundary grid, re-sealed); optional-element overruns/rewinds, unused header bytes, image behind another image in the same descriptor",
                 text=EXPL,
                 note=TRUST),
     "C14": dict(level="exploration",
-                technique="runtime monitoring of zck_get_chunk_data / zck_get_chunk_comp_data request sequences (all sequences up to length 2/3 for small files) against reference slices; history independence via position-independent expectation",
+                technique="runtime monitoring of zck_get_chunk_data / zck_get_chunk_comp_data request sequences (all sequences up to length 2/3 for small files) against reference slices; history independence via position-independent expectation; requests interleaved with the application's own use of the descriptor; chunks beyond 10 MiB; unzck --dict on files and detached headers",
                 text=EXPL + " All request sequences up to the stated length are enumerated for the smallest files.",
                 note=TRUST),
     "C15": dict(level="exploration",
-                technique="runtime monitoring of zck_read on zstd files with single-bit body corruption: every successfully returned byte attributed to its chunk via the reference index; a byte from a chunk whose stored bytes mismatch its checksum is a violation",
+                technique="runtime monitoring of zck_read on zstd files with single-bit body corruption: every successfully returned byte attributed to its chunk via the reference index; a byte from a chunk whose stored bytes mismatch its checksum is a violation; chunks of several MiB (stored size > 4 MiB) and runs of identical chunks",
                 text=EXPL,
                 note=TRUST),
     "C16": dict(level="exploration",
@@ -78,11 +78,11 @@ CHECKS = {
                 text=EXPL,
                 note=TRUST),
     "C17": dict(level="exploration",
-                technique="sanitizer monitoring (ASan+UBSan, signals, CPU bound) of the download callbacks fed structured hostile header lines / bodies and libFuzzer-generated responses; write(2) interposer log for confinement; valid flags vs hashlib",
+                technique="sanitizer monitoring (ASan+UBSan, signals, CPU bound) of the download callbacks fed structured hostile header lines / bodies and libFuzzer-generated responses; write(2) interposer log for confinement; valid flags vs hashlib; runs at DEBUG log level and with the target on descriptor 2; retry sequences; part headers beyond 1 MiB",
                 text=EXPL,
                 note="Counts ASan/UBSan reports, fatal signals, CPU-bound overruns; confinement judged from the interposer's write log."),
     "C18": dict(level="exploration",
-                technique="differential execution of the two real builds (OpenSSL and bundled SHA) with Python hashlib as third party: digests over all lengths 0..520 x segmentations, random long messages, and cross-build write/read of files",
+                technique="differential execution of the two real builds (OpenSSL and bundled SHA) with Python hashlib as third party: digests over all lengths 0..520 x segmentations, random long messages, and cross-build write/read of files; messages of 2^29+k bytes and single update calls above 256 MiB",
                 text=EXPL + " Message lengths 0..520 x 4 types are enumerated completely for whole/1-byte/every-split segmentations.",
                 note="Third party: Python hashlib."),
     "C19": dict(level="exploration",
@@ -90,7 +90,7 @@ CHECKS = {
                 text="Held on the interleavings executed; TSan reports an unsynchronised conflicting pair whenever both accesses execute, so reach comes from every scenario pair being co-scheduled.",
                 note="TSan only sees instrumented code (library + harness); OpenSSL/zstd internals uninstrumented."),
     "C20": dict(level="exploration",
-                technique="runtime enumeration with guard-page monitor: every byte string of length <= 3 and boundary strings of length 8..11 through the real decoders with a PROT_NONE page behind the buffer; exact expectation from 128-bit / Python integer arithmetic; ASan pass",
+                technique="runtime enumeration with guard-page monitor: every byte string of length <= 3 and boundary strings of length 8..11 through the real decoders with a PROT_NONE page behind the buffer; exact expectation from 128-bit / Python integer arithmetic; ASan pass; the same at the most verbose log level; cursors and room beyond 4 GiB; cursor past the limit",
                 text="All byte strings of length <= 3 at every (cursor, limit) are enumerated completely; longer encodings sampled on the boundary grid.",
                 note="Oracle: exact integer arithmetic (unsigned __int128 in the harness, Python ints cross-check)."),
 }
